@@ -24,10 +24,10 @@ def run(ctx):
     exe = build(ctx, "drv_map", "drv_map.c", LIB, wrap=WRAP)
     if ctx.quick:
         closure(ctx, exe, "k4", 4, props)
-        nk, steps = 24, 2500
+        nk, steps = 40, 6000
     else:
         closure(ctx, exe, "k5", 5, props)
-        nk, steps = 64, 25000
+        nk, steps = 64, 40000
     impl_phase(ctx, "rand", exe, ["random", ctx.seed, steps, 2], [nk, 1, 1], "TraceMap", kdef(nk), consts(nk), props)
     ctx.assumptions += [
         "TLC and the TLA+ text of C08OK / SameBut in MapOps.tla / TraceMap.tla are trusted",
